@@ -203,6 +203,9 @@ type qFrame struct {
 	leq      map[string]bool         // relational facts "A<=B" (expression texts) established by the enclosing conditions
 	dep      map[types.Object]string // trackDeps: the cells a uint64 local was computed from (sorted, comma separated)
 	fn       map[types.Object]*types.Func // function-valued locals that hold one known function on this path
+	vlen     map[types.Object]ival        // length of a slice view (x := p[a:b])
+	rec      map[types.Object]map[string]ival   // a struct of integers held in a local (the row of a table)
+	tab      map[types.Object][]map[string]ival // a slice of such structs built by the function (a table of layers)
 	ret      []qitv
 	retDep   []string
 	returned bool
@@ -210,7 +213,7 @@ type qFrame struct {
 }
 
 func newQFrame() *qFrame {
-	return &qFrame{u: map[types.Object]qitv{}, n: map[types.Object]ival{}, bl: map[types.Object]int{}, sym: map[types.Object]string{}, base: map[types.Object]ival{}, leq: map[string]bool{}, dep: map[types.Object]string{}, fn: map[types.Object]*types.Func{}}
+	return &qFrame{u: map[types.Object]qitv{}, n: map[types.Object]ival{}, bl: map[types.Object]int{}, sym: map[types.Object]string{}, base: map[types.Object]ival{}, leq: map[string]bool{}, dep: map[types.Object]string{}, fn: map[types.Object]*types.Func{}, vlen: map[types.Object]ival{}, rec: map[types.Object]map[string]ival{}, tab: map[types.Object][]map[string]ival{}}
 }
 
 func (f *qFrame) clone() *qFrame {
@@ -238,6 +241,15 @@ func (f *qFrame) clone() *qFrame {
 	}
 	for k, v := range f.fn {
 		g.fn[k] = v
+	}
+	for k, v := range f.vlen {
+		g.vlen[k] = v
+	}
+	for k, v := range f.rec {
+		g.rec[k] = v
+	}
+	for k, v := range f.tab {
+		g.tab[k] = v
 	}
 	g.ret = append(g.ret, f.ret...)
 	g.retDep = append(g.retDep, f.retDep...)
@@ -380,6 +392,21 @@ func joinFrames(a, b *qFrame) *qFrame {
 	for k, v := range a.fn {
 		if b.fn[k] == v {
 			r.fn[k] = v
+		}
+	}
+	for k, v := range a.vlen {
+		if w, ok := b.vlen[k]; ok && w == v {
+			r.vlen[k] = v
+		}
+	}
+	for k, v := range a.rec {
+		if _, ok := b.rec[k]; ok {
+			r.rec[k] = v // rows are immutable once bound
+		}
+	}
+	for k, v := range a.tab {
+		if w, ok := b.tab[k]; ok && len(w) == len(v) {
+			r.tab[k] = v
 		}
 	}
 	for k, v := range a.u {
@@ -544,6 +571,15 @@ func (q *qInterp) evalInt(f *qFrame, x ast.Expr) ival {
 		if o := q.info.Uses[v]; o != nil {
 			if iv, ok := f.n[o]; ok {
 				return iv
+			}
+		}
+	case *ast.SelectorExpr:
+		// a field of a row of integers (`l.m` with l the value variable of a range over a table)
+		if id, ok := unparen(v.X).(*ast.Ident); ok {
+			if r, ok := f.rec[q.info.Uses[id]]; ok {
+				if iv, ok := r[v.Sel.Name]; ok {
+					return iv
+				}
 			}
 		}
 	case *ast.BinaryExpr:
@@ -1123,21 +1159,148 @@ func (q *qInterp) call(f *qFrame, call *ast.CallExpr) []qitv {
 	return g.ret
 }
 
+// rowOf evaluates a struct literal whose fields are all integers known to the analysis.
+func (q *qInterp) rowOf(f *qFrame, x ast.Expr) (map[string]ival, bool) {
+	cl, ok := unparen(x).(*ast.CompositeLit)
+	if !ok {
+		return nil, false
+	}
+	st, ok := q.info.TypeOf(cl).Underlying().(*types.Struct)
+	if !ok || st.NumFields() == 0 {
+		return nil, false
+	}
+	for i := 0; i < st.NumFields(); i++ {
+		if !isIntLike(st.Field(i).Type()) {
+			return nil, false
+		}
+	}
+	row := map[string]ival{}
+	for i, el := range cl.Elts {
+		if kv, ok := el.(*ast.KeyValueExpr); ok {
+			k, ok := kv.Key.(*ast.Ident)
+			if !ok {
+				return nil, false
+			}
+			row[k.Name] = q.evalIntAny(f, kv.Value)
+		} else if i < st.NumFields() {
+			row[st.Field(i).Name()] = q.evalIntAny(f, el)
+		}
+	}
+	for i := 0; i < st.NumFields(); i++ {
+		if _, ok := row[st.Field(i).Name()]; !ok {
+			row[st.Field(i).Name()] = ival{true, 0}
+		}
+	}
+	return row, true
+}
+
+// tableOf evaluates an expression that yields a slice of integer rows: make([]T, 0, k), a literal, append(tab, rows…).
+func (q *qInterp) tableOf(f *qFrame, x ast.Expr) ([]map[string]ival, bool) {
+	x = unparen(x)
+	t := q.info.TypeOf(x)
+	if t == nil {
+		return nil, false
+	}
+	sl, ok := t.Underlying().(*types.Slice)
+	if !ok {
+		return nil, false
+	}
+	st, ok := sl.Elem().Underlying().(*types.Struct)
+	if !ok || st.NumFields() == 0 {
+		return nil, false
+	}
+	for i := 0; i < st.NumFields(); i++ {
+		if !isIntLike(st.Field(i).Type()) {
+			return nil, false
+		}
+	}
+	switch v := x.(type) {
+	case *ast.CompositeLit:
+		var rows []map[string]ival
+		for _, el := range v.Elts {
+			// elided element type: the literal has no type of its own in go/types for `{…}` rows
+			cl, ok := el.(*ast.CompositeLit)
+			if !ok {
+				return nil, false
+			}
+			row := map[string]ival{}
+			for i, fe := range cl.Elts {
+				if kv, ok := fe.(*ast.KeyValueExpr); ok {
+					if k, ok := kv.Key.(*ast.Ident); ok {
+						row[k.Name] = q.evalIntAny(f, kv.Value)
+					}
+				} else if i < st.NumFields() {
+					row[st.Field(i).Name()] = q.evalIntAny(f, fe)
+				}
+			}
+			rows = append(rows, row)
+		}
+		return rows, true
+	case *ast.CallExpr:
+		if isBuiltinCall(q.info, v, "make") {
+			if len(v.Args) >= 2 {
+				if n := q.evalIntAny(f, v.Args[1]); n.known && n.v == 0 {
+					return []map[string]ival{}, true
+				}
+			}
+			return nil, false
+		}
+		if isBuiltinCall(q.info, v, "append") && len(v.Args) >= 1 {
+			id, ok := unparen(v.Args[0]).(*ast.Ident)
+			if !ok {
+				return nil, false
+			}
+			base, ok := f.tab[q.info.Uses[id]]
+			if !ok {
+				return nil, false
+			}
+			rows := append([]map[string]ival{}, base...)
+			for _, a := range v.Args[1:] {
+				row, ok := q.rowOf(f, a)
+				if !ok {
+					return nil, false
+				}
+				rows = append(rows, row)
+			}
+			return rows, true
+		}
+	}
+	return nil, false
+}
+
 // sliceLen is the length of a tracked slice expression, when the analysis knows it (exact mode).
 func (q *qInterp) sliceLen(f *qFrame, x ast.Expr) ival {
 	if q.slen == nil {
 		return ival{}
 	}
+	x = unparen(x)
+	if se, ok := x.(*ast.SliceExpr); ok {
+		lo := ival{true, 0}
+		if se.Low != nil {
+			lo = q.evalIntAny(f, se.Low)
+		}
+		hi := ival{}
+		if se.High != nil {
+			hi = q.evalIntAny(f, se.High)
+		} else {
+			hi = q.sliceLen(f, se.X)
+		}
+		if lo.known && hi.known {
+			return ival{true, hi.v - lo.v}
+		}
+		return ival{}
+	}
+	if id, ok := x.(*ast.Ident); ok {
+		o := q.info.Uses[id]
+		if o == nil {
+			o = q.info.Defs[id]
+		}
+		if n, ok := f.vlen[o]; ok {
+			return n
+		}
+	}
 	if s, b := q.symOf(f, x); s != "" && b.known {
 		if n, ok := q.slen[s]; ok {
-			if se, ok := unparen(x).(*ast.SliceExpr); ok && se.High != nil {
-				if hi := q.evalIntAny(f, se.High); hi.known {
-					if lo := q.evalIntAny(f, se.Low); se.Low == nil || lo.known {
-						return ival{true, hi.v - lo.v}
-					}
-				}
-				return ival{}
-			}
 			return ival{true, n - b.v}
 		}
 	}
@@ -1384,6 +1547,26 @@ func (q *qInterp) stmt(f *qFrame, st ast.Stmt) *qFrame {
 	case *ast.ForStmt:
 		return q.forStmt(f, s)
 	case *ast.RangeStmt:
+		// a range over a table of integer rows built by the function: one iteration per row, the value variable is the row
+		if id, ok := unparen(s.X).(*ast.Ident); ok {
+			if rows, ok := f.tab[q.info.Uses[id]]; ok && len(rows) <= 128 {
+				for i, row := range rows {
+					if f.returned || q.steps > qStepLimit {
+						break
+					}
+					if s.Key != nil {
+						q.assign(f, s.Key, qTop, ival{true, int64(i)}, true, 0, s.Pos())
+					}
+					if vid, ok := s.Value.(*ast.Ident); ok && vid.Name != "_" {
+						if vo := q.info.Defs[vid]; vo != nil {
+							f.rec[vo] = row
+						}
+					}
+					f = q.loopBody(f, s.Body.List)
+				}
+				return f
+			}
+		}
 		// exact mode: a range over a slice of known length (or over an integer) is executed index by index; a range over
 		// a window (an array of at most 32 elements) always is
 		smallArray := false
@@ -1656,10 +1839,35 @@ func (q *qInterp) assignStmt(f *qFrame, s *ast.AssignStmt) *qFrame {
 						o = q.info.Uses[id]
 					}
 					if o != nil {
+						if n := q.sliceLen(f, s.Rhs[0]); n.known {
+							f.vlen[o] = n
+						} else {
+							delete(f.vlen, o)
+						}
 						f.sym[o] = sym
 						f.base[o] = vb
 						q.forgetView(id.Name)
 					}
+					return f
+				}
+			}
+		}
+	}
+	// tables of integer rows: `layers := make([]layer, 0, k)`, `layers = append(layers, layer{m: m, t: t})`,
+	// `layers := []layer{{…}, …}`
+	if len(s.Lhs) == 1 && len(s.Rhs) == 1 {
+		if id, ok := unparen(s.Lhs[0]).(*ast.Ident); ok {
+			o := q.info.Defs[id]
+			if o == nil {
+				o = q.info.Uses[id]
+			}
+			if o != nil {
+				if rows, ok := q.tableOf(f, s.Rhs[0]); ok {
+					f.tab[o] = rows
+					return f
+				}
+				if row, ok := q.rowOf(f, s.Rhs[0]); ok {
+					f.rec[o] = row
 					return f
 				}
 			}
@@ -1694,6 +1902,7 @@ func (q *qInterp) assignStmt(f *qFrame, s *ast.AssignStmt) *qFrame {
 		b   int
 		sym string
 		vb  ival
+		vl  ival
 	}
 	vals := make([]val, len(s.Rhs))
 	deps := make([]string, len(s.Rhs))
@@ -1794,6 +2003,7 @@ func (q *qInterp) assignStmt(f *qFrame, s *ast.AssignStmt) *qFrame {
 			}
 			if sym, vb := q.symOf(f, r); sym != "" {
 				vals[i].sym, vals[i].vb = sym, vb
+				vals[i].vl = q.sliceLen(f, r)
 			} else if b, ok := t.(*types.Basic); ok && b.Info()&types.IsBoolean != 0 {
 				vals[i].b = q.evalBool(f, r)
 			} else if t != nil {
@@ -1813,6 +2023,11 @@ func (q *qInterp) assignStmt(f *qFrame, s *ast.AssignStmt) *qFrame {
 				if o != nil {
 					f.sym[o] = vals[i].sym
 					f.base[o] = vals[i].vb
+					if vals[i].vl.known {
+						f.vlen[o] = vals[i].vl
+					} else {
+						delete(f.vlen, o)
+					}
 					q.forgetView(id.Name)
 				}
 			}
